@@ -32,5 +32,5 @@ const (
 	verifTickCliTimeoutResolved
 )
 
-func verifTick(which int)                    {}
+func verifTick(which int)                                                  {}
 func verifGauge(strms, open, closedRing int, recvWindow, sendWindow int64) {}
